@@ -13,7 +13,26 @@
     (only changes the class of terminal LostSpans), serialisation.
     [numpy.searchsorted] is modelled as "first index whose element is >= v"
     (resp. > v), which is what the binary search returns on a sorted array;
-    every array it is applied to is sorted for a well-formed map. *)
+    every array it is applied to is sorted for a well-formed map.
+
+    INTERFACE (for the models that build on this one, C03 / C04):
+      [imap] / [mk_imap gap_pos cum_gap_lengths parent_length]   the record
+      [res A] = [Ok a | Err code], [bind]                         results that may raise
+      [from_mask k]                 parse_out_gaps on the gap mask (true = residue)
+      [len], [num_gaps], [get_gap_lengths], [gap_starts], [gap_ends]
+      [get_seq_index m i], [get_align_index m s slice_stop]       index conversions
+      [getitem_slice m (o_start) (o_stop)], [getitem_int]         m[a:b], m[i]
+      [add], [mul], [nucleic_reversed], [merge_maps], [minus_gaps], [shared_gaps],
+      [joined_segments], [from_aligned_segments], [gap_coords_to_map]
+      [spans] / [spans_mask], [nongap], [get_coordinates], [get_gap_coordinates],
+      [get_gap_align_coordinates], [make_seq_coords]
+    Meaning and theorems: Spec/IndelMapSpec.v ([abs : imap -> list bool], [WF]),
+    Properties/C08.v (e.g. [WF m -> abs (m[a:b]) = msub (abs m) a b],
+    [from_mask (abs m) = m], [get_seq_index m x = residues (firstn x (abs m))]);
+    every well-formed map is [from_mask k] for exactly one string [k].
+    The corrected variants of the four methods the property refutes are in
+    Model/IndelMapFixed.v ([getitem_slice_v2], [add_v2], [get_coordinates_v2],
+    [nongap_v2]). *)
 From CG3 Require Import Lib.PyZ Lib.Val.
 
 Inductive res (A : Type) : Type := Ok (a : A) | Err (e : Z).
